@@ -39,6 +39,9 @@ pub struct CaseSpec {
     pub label: String,
     /// (IX, DE) of the two fast-load requests made after a tape was inserted
     pub request: (u16, u16),
+    /// T-state of the frame at which the receiving machine was stopped by a breakpoint before the
+    /// snapshot is loaded into it (0: a machine at a frame boundary)
+    pub recv_stop: u32,
 }
 
 #[derive(Debug, Clone, PartialEq, Eq)]
@@ -92,6 +95,20 @@ fn machine(m128: bool, fastload: bool) -> Emu {
     rig::emu(&o)
 }
 
+/// Leaves the machine stopped by a breakpoint `t` T-states into a frame (NOP sled in uncontended RAM)
+fn stop_mid_frame(e: &mut Emu, t: u32) {
+    rig::poke(e, 0x8000, &vec![0u8; 0x4600]);
+    rig::poke(e, 0xC600, &[0x18, 0xFE]);
+    let mut v = RegsView::default();
+    v.pc = 0x8000;
+    v.sp = 0xFF00;
+    v.im = 1;
+    rig::set_regs(e.verif_cpu(), &v);
+    e.set_debug_interface(VDebug::at(&[0x8000 + (t / 4) as u16]));
+    let _ = e.emulate_frames(Duration::from_secs(100));
+    e.set_debug_interface(VDebug::at(&[]));
+}
+
 fn run_frames(e: &mut Emu, n: usize) {
     for _ in 0..n {
         let _ = e.emulate_frames(Duration::from_secs(100));
@@ -112,6 +129,9 @@ pub fn execute_q(c: &CaseSpec, quick: bool) -> (Outcome, usize, usize) {
         match c.entry {
             Entry::Sna | Entry::Szx => {
                 let mut e = machine(c.m128, false);
+                if c.recv_stop > 0 {
+                    stop_mid_frame(&mut e, c.recv_stop);
+                }
                 let a = asset(c);
                 let res = if c.entry == Entry::Sna { e.load_snapshot(Snapshot::Sna(TrackedAsset::new(a, &mut calls, &mut cap_hit))) } else { e.load_snapshot(Snapshot::Szx(TrackedAsset::new(a, &mut calls, &mut cap_hit))) };
                 e_holder = Some(e);
@@ -234,7 +254,8 @@ pub fn execute_q(c: &CaseSpec, quick: bool) -> (Outcome, usize, usize) {
     // allocation bound: inputs that are containers of compressed data may legitimately expand by
     // the format's own maximum ratio (gzip/zlib ~1032:1, LH5 similar)
     let ratio = match c.entry {
-        Entry::GzSna | Entry::Vtx | Entry::Szx => 1100,
+        // an SZX page is 16K whatever its stream inflates to: no expansion allowance for it
+        Entry::GzSna | Entry::Vtx => 1100,
         _ => 16,
     };
     let bound = (1 << 20) + 4 * 131072 + ratio * c.bytes.len();
@@ -332,7 +353,7 @@ fn seeds() -> Vec<(Entry, bool, String, Arc<Vec<u8>>)> {
 }
 
 fn spec(entry: Entry, m128: bool, bytes: Vec<u8>, label: String) -> CaseSpec {
-    CaseSpec { entry, m128, bytes: Arc::new(bytes), faults: vec![], seek_fault: None, chunk: 0, label, request: (0x9000, 0x0140) }
+    CaseSpec { entry, m128, bytes: Arc::new(bytes), faults: vec![], seek_fault: None, chunk: 0, label, request: (0x9000, 0x0140), recv_stop: 0 }
 }
 
 /// structural fields of a seed: (offset, width)
@@ -431,6 +452,61 @@ fn apply_field(d: &mut [u8], off: usize, width: usize, val: u64) {
 fn build_families(quick: bool) -> Vec<Family> {
     let mut fams: Vec<Family> = Vec::new();
     let all_entries = [Entry::Sna, Entry::Szx, Entry::Tap, Entry::Scr, Entry::Rom, Entry::GzSna, Entry::Vtx];
+    // a snapshot with its own frame position loaded into a machine that a breakpoint stopped in the
+    // middle of a frame: every relation of the two beam positions (same line before/after, other
+    // lines, out of range)
+    for m128 in [false, true] {
+        let (first, line, frame) = if m128 { (14362u32, 228u32, 70908u32) } else { (14336, 224, 69888) };
+        let stops: Vec<u32> = vec![5000, first + 50 * line + 4, first + 100 * line + 100, first + 191 * line + 120, frame - 900];
+        let rel: Vec<i64> = vec![-400, -224, -130, -100, -64, -32, -16, -8, -4, -1, 0, 1, 4, 8, 64, 224];
+        let abs: Vec<u32> = vec![0, frame - 1, frame, 2 * frame + 5, 0xFFFF_FFFF];
+        let per = rel.len() + abs.len();
+        fams.push(Family {
+            name: format!("szx-into-machine-stopped-mid-frame:{}", if m128 { "128k" } else { "48k" }),
+            count: stops.len() * per,
+            make: Box::new(move |i| {
+                let t = stops[i / per];
+                let k = i % per;
+                let cyc = if k < rel.len() { (t as i64 + rel[k]) as u32 } else { abs[k - rel.len()] };
+                let mut s = MState::new(m128, 2);
+                s.regs.pc = 0x9000;
+                s.regs.iff1 = false;
+                s.regs.iff2 = false;
+                s.banks[2][0x1000..0x1003].copy_from_slice(&[0xF3, 0x18, 0xFE]);
+                s.cycles = cyc;
+                let mut c = spec(Entry::Szx, m128, szx(&s, &SzxOpts::default()), format!("szx at T={} into a machine stopped at T={}", cyc, t));
+                c.recv_stop = t;
+                c
+            }),
+        });
+    }
+    // compressed RAM pages whose stream inflates to more than a page: the loader needs 16K of it, so
+    // its memory request has to stay bounded whatever the stream expands to
+    for m128 in [false, true] {
+        let sizes: Vec<usize> = if quick { vec![16383, 16385, 65535, 65536, 65537, 1 << 20, 8 << 20] } else { vec![16383, 16384, 16385, 65535, 65536, 65537, 1 << 20, 8 << 20, 32 << 20] };
+        let n = sizes.len();
+        fams.push(Family {
+            name: format!("szx-ramp-inflating-streams:{}", if m128 { "128k" } else { "48k" }),
+            count: n * 2,
+            make: Box::new(move |i| {
+                let size = sizes[i % n];
+                let patterned = i / n == 1;
+                let mut s = MState::new(m128, 2);
+                s.regs.pc = 0x9000;
+                s.regs.iff1 = false;
+                s.regs.iff2 = false;
+                s.banks[2][0x1000..0x1003].copy_from_slice(&[0xF3, 0x18, 0xFE]);
+                let mut f = szx(&s, &SzxOpts::default());
+                let plain: Vec<u8> = (0..size).map(|k| if patterned { (k % 251) as u8 } else { 0 }).collect();
+                let z = miniz_oxide::deflate::compress_to_vec_zlib(&plain, 9);
+                f.extend_from_slice(b"RAMP");
+                f.extend_from_slice(&((z.len() + 3) as u32).to_le_bytes());
+                f.extend_from_slice(&[1, 0, 0]);
+                f.extend_from_slice(&z);
+                spec(Entry::Szx, m128, f, format!("szx with a compressed page inflating to {} bytes ({})", size, if patterned { "pattern" } else { "zeros" }))
+            }),
+        });
+    }
     // (a) short strings
     for entry in all_entries {
         for m128 in [false, true] {
@@ -967,9 +1043,9 @@ pub fn run(tier: Tier, seed: u64, replay: Option<String>) -> i32 {
     ctx.outcome(outcomes_ok.load(Ordering::Relaxed));
     ctx.outcome(outcomes_err.load(Ordering::Relaxed) ^ 0xE);
     ctx.sample(json!({"family":"prefixes:szx128-stored","index":100,"label":"first 100 bytes of a valid 128K SZX"}));
-    ctx.note("not_judged", json!("vtx::Player (playback, not loading); allocation bound for gzip/zlib/LH5 containers uses the formats' own maximum expansion ratio"));
+    ctx.note("not_judged", json!("vtx::Player (playback, not loading); allocation bound for gzip and LH5 containers uses the formats' own maximum expansion ratio"));
     let code = ctx.finish(
-        "entry points: load_snapshot (SNA, SZX), load_tape then play 50 frames, stop, rewind and two fast-load requests, load_screen, load_rom, GzipAsset::new + load, Vtx::load; both machines. Families, each exhaustive: all byte strings of length <= 2 and length 3-4 over a 9-letter alphabet; every prefix of each seed file; boundary values of every structural field alone and in all pairs; every single-byte substitution in the header regions and a stride through the rest; asset faults {Err, 1-byte short read, Ok(0), seek failure} at every call index (pairs in thorough) and chunked reads {1,2,3,127,128,129}. Monitors: panic, wall-clock watchdog, asset-call budget 64*len+4096, largest allocation request, 2 further frames of emulation (tapes: 50 frames playing, then two fast-load requests). distinct_nontrivial = cases executed",
+        "entry points: load_snapshot (SNA, SZX), load_tape then play 50 frames, stop, rewind and two fast-load requests, load_screen, load_rom, GzipAsset::new + load, Vtx::load; both machines. Families, each exhaustive: all byte strings of length <= 2 and length 3-4 over a 9-letter alphabet; every prefix of each seed file; boundary values of every structural field alone and in all pairs; every single-byte substitution in the header regions and a stride through the rest; asset faults {Err, 1-byte short read, Ok(0), seek failure} at every call index (pairs in thorough) and chunked reads {1,2,3,127,128,129}; SZX files carrying every relation of their frame position to the position at which a breakpoint stopped the receiving machine (same line before/after, other lines, out of range: 5 stop positions x 21 positions x 2 machines); SZX pages whose zlib stream inflates to 16383..32 Mi bytes (no expansion allowance for SZX: a page is 16K). Monitors: panic, wall-clock watchdog, asset-call budget 64*len+4096, largest allocation request, 2 further frames of emulation (tapes: 50 frames playing, then two fast-load requests). distinct_nontrivial = cases executed",
         !capped,
         &["in-process watchdog: a hung case is reported, its thread abandoned and replaced (process exit ends it)", "counting global allocator records the largest single request"],
     );
